@@ -816,9 +816,13 @@ class ObjectDomain(LazyGenerators, EffectDomain):
                                 "itertools.count", "itertools.chain", "itertools.repeat", "itertools.filterfalse", "itertools.dropwhile", "itertools.takewhile",
                                 "itertools.islice", "itertools.accumulate", "itertools.starmap", "itertools.zip_longest", "functools.reduce", "functools.partial",
                                 "operator.attrgetter", "operator.itemgetter", "operator.methodcaller", "operator.is_", "operator.is_not", "operator.not_", "operator.eq",
-                                "operator.ne", "operator.contains", "operator.truth", "operator.getitem", "operator.add", "operator.or_", "operator.and_", "operator.call",
+                                "operator.ne", "operator.contains", "operator.truth", "operator.getitem", "operator.add", "operator.or_", "operator.and_", "operator.call", "operator.lt", "operator.gt", "operator.le", "operator.ge", "operator.sub",
                                 "sys.exc_info", "sys.exception", "copy.copy", "copy.deepcopy"})
     _by_name_cache = {}
+    OPERATOR_EXPR = {"operator.contains": (2, "{1} in {0}"), "operator.is_": (2, "{0} is {1}"), "operator.is_not": (2, "{0} is not {1}"), "operator.not_": (1, "not {0}"),
+                     "operator.eq": (2, "{0} == {1}"), "operator.ne": (2, "{0} != {1}"), "operator.truth": (1, "bool({0})"), "operator.getitem": (2, "{0}[{1}]"),
+                     "operator.add": (2, "{0} + {1}"), "operator.or_": (2, "{0} | {1}"), "operator.and_": (2, "{0} & {1}"), "operator.lt": (2, "{0} < {1}"), "operator.gt": (2, "{0} > {1}"),
+                     "operator.le": (2, "{0} <= {1}"), "operator.ge": (2, "{0} >= {1}"), "operator.sub": (2, "{0} - {1}")}
 
     def call_by_name(self, interp, name, pos, kw, st, fr):
         """`name(*pos, **kw)` for a builtin held as a value: evaluated exactly as the call written out would be."""
@@ -830,7 +834,10 @@ class ObjectDomain(LazyGenerators, EffectDomain):
             kws = [k for k, _ in kw]
             if name == "type" and len(pos) == 0:
                 return None
-            src = f"def _calling_a_builtin({', '.join(params + kws)}):\n    return {name}({', '.join(params + [f'{k}={k}' for k in kws])})\n"
+            if name in self.OPERATOR_EXPR and not kws and len(pos) == self.OPERATOR_EXPR[name][0]:
+                src = f"def _calling_a_builtin({', '.join(params)}):\n    return {self.OPERATOR_EXPR[name][1].format(*params)}\n"   # operator.f(a, b) is the expression it names
+            else:
+                src = f"def _calling_a_builtin({', '.join(params + kws)}):\n    return {name}({', '.join(params + [f'{k}={k}' for k in kws])})\n"
             tree = ast.parse(src)
             _annotate(tree, getattr(fr.func, "_module", None))
             f = tree.body[0]
@@ -1888,6 +1895,41 @@ class ObjectDomain(LazyGenerators, EffectDomain):
                         else:
                             out.append(val(TOP, s1))
                 return out
+        if d in self.OPERATOR_EXPR and len(call.args) == self.OPERATOR_EXPR[d][0] and not call.keywords and not any(isinstance(a, ast.Starred) for a in call.args) and not st.has(fr.local("operator")):
+            out = []
+            for r in interp.eval_list(list(call.args), st, fr, share=[True] * len(call.args)):
+                out.extend([r] if r.kind == "exc" else self.call_by_name(interp, d, list(r.value), [], r.state, fr))
+            return out
+        if d == "map" and len(call.args) >= 3 and not call.keywords and not any(isinstance(a, ast.Starred) for a in call.args) and not st.has(fr.local("map")) and self.lazy_generators:
+            # map(f, a, b, ...): f applied to the elements of a, b, ... in step, as the result is consumed
+            return [r if r.kind == "exc" else self._iterator_object(("zipmap", r.value[0], tuple(r.value[1:])), r.state) for r in interp.eval_list(list(call.args), st, fr, share=[True] * len(call.args))]
+        if d in ("itertools.accumulate", "accumulate") and len(call.args) in (1, 2) and all(k.arg == "initial" for k in call.keywords) and not any(isinstance(a, ast.Starred) for a in call.args) \
+                and self.lazy_generators and not st.has(fr.local("accumulate")):
+            out = []
+            for r in interp.eval_list(list(call.args) + [k.value for k in call.keywords], st, fr, share=[True] * (len(call.args) + len(call.keywords))):
+                if r.kind == "exc":
+                    out.append(r)
+                    continue
+                fn = r.value[1] if len(call.args) == 2 else ("builtin", "operator.add")
+                start = ("initial", r.value[len(call.args)]) if call.keywords and r.value[len(call.args)] != NONE else ("first",)
+                out.append(self._iterator_object(("accum", fn, r.value[0], start), r.state))
+            return out
+        if d in ("itertools.islice", "islice") and len(call.args) in (2, 3) and not call.keywords and not any(isinstance(a, ast.Starred) for a in call.args) and self.lazy_generators \
+                and not st.has(fr.local("islice")):
+            out = []
+            for r in interp.eval_list(list(call.args), st, fr, share=[True] * len(call.args)):
+                if r.kind == "exc":
+                    out.append(r)
+                    continue
+                bounds = []
+                for b in r.value[1:]:
+                    ok_, p_ = self._py(b)
+                    bounds.append(p_ if ok_ and (p_ is None or (isinstance(p_, int) and not isinstance(p_, bool) and p_ >= 0)) else "?")
+                if "?" in bounds:
+                    raise Undecided(f"itertools.islice with bounds the analysis could not determine, in {fr.name}")
+                skip, stop = (0, bounds[0]) if len(bounds) == 1 else (bounds[0] or 0, bounds[1])
+                out.append(self._iterator_object(("islice", r.value[0], skip, None if stop is None else max(stop - skip, 0)), r.state))
+            return out
         if d in ("functools.reduce", "reduce") and len(call.args) in (2, 3) and not call.keywords and not any(isinstance(a, ast.Starred) for a in call.args) and not st.has(fr.local("reduce")):
             # reduce(f, seq[, initial]): f applied left to right, as written in functools
             out = []
@@ -2152,7 +2194,7 @@ class ObjectDomain(LazyGenerators, EffectDomain):
         return [(interp._exact_elements(value), st)]
 
     def pullable(self, v):
-        return isinstance(v, tuple) and v[:1] in (("calliter",), ("repeat",), ("seqiter",), ("itercount",), ("genobj",), ("lazycomp",), ("iterobj",), ("chain",), ("ifilter",)) or (isinstance(v, tuple) and v[:1] == ("lazymap",) and len(v) == 3 and self.pullable(v[2]))
+        return isinstance(v, tuple) and v[:1] in (("calliter",), ("repeat",), ("seqiter",), ("itercount",), ("genobj",), ("lazycomp",), ("iterobj",), ("chain",), ("ifilter",), ("zipmap",), ("accum",), ("islice",)) or (isinstance(v, tuple) and v[:1] == ("lazymap",) and len(v) == 3 and self.pullable(v[2]))
 
     def pull(self, interp, seq, st, fr):
         return self._pull(interp, seq, st, fr)
@@ -2240,6 +2282,52 @@ class ObjectDomain(LazyGenerators, EffectDomain):
                 if not work:
                     return out
             raise Undecided(f"{mode} does not find its next element within the analysis budget")
+        if isinstance(seq, tuple) and seq[:1] == ("zipmap",) and len(seq) == 3:
+            cur = [((), (), st)]
+            out = []
+            for src in seq[2]:
+                nxt = []
+                for els, rests, s0 in cur:
+                    for kind, el, rest, s1 in self._pull(interp, src, s0, fr):
+                        if kind == "item":
+                            nxt.append((els + (el,), rests + (rest,), s1))
+                        else:
+                            out.append((kind, el, None, s1))   # the shortest source ends the map
+                cur = nxt
+            for els, rests, s0 in cur:
+                for r in self.apply(interp, seq[1], list(els), [], s0, fr):
+                    out.append(("exc", r.value, None, r.state) if r.kind == "exc" else ("item", r.value, ("zipmap", seq[1], rests), r.state))
+            return out
+        if isinstance(seq, tuple) and seq[:1] == ("accum",) and len(seq) == 4:
+            _, fn, src, mode = seq
+            if mode[0] == "initial":
+                return [("item", mode[1], ("accum", fn, src, ("acc", mode[1])), st)]
+            out = []
+            for kind, el, rest, s1 in self._pull(interp, src, st, fr):
+                if kind != "item":
+                    out.append((kind, el, None, s1))
+                elif mode[0] == "first":
+                    out.append(("item", el, ("accum", fn, rest, ("acc", el)), s1))
+                else:
+                    for r in self.apply(interp, fn, [mode[1], el], [], s1, fr):
+                        out.append(("exc", r.value, None, r.state) if r.kind == "exc" else ("item", r.value, ("accum", fn, rest, ("acc", r.value)), r.state))
+            return out
+        if isinstance(seq, tuple) and seq[:1] == ("islice",) and len(seq) == 4:
+            _, src, skip, left = seq
+            if left == 0:
+                return [("end", None, None, st)]
+            out = []
+            work = [(src, skip, st)]
+            while work:
+                cur, k, s0 = work.pop()
+                for kind, el, rest, s1 in self._pull(interp, cur, s0, fr):
+                    if kind != "item":
+                        out.append((kind, el, None, s1))
+                    elif k > 0:
+                        work.append((rest, k - 1, s1))
+                    else:
+                        out.append(("item", el, ("islice", rest, 0, None if left is None else left - 1), s1))
+            return out
         if isinstance(seq, tuple) and seq[:1] == ("genobj",) and len(seq) == 2:
             return self.pull_generator(interp, seq, st, fr)
         if isinstance(seq, tuple) and seq[:1] == ("lazycomp",) and len(seq) == 6:
